@@ -7,8 +7,8 @@ def run(tier):
         "C08", tier,
         "C08: every GT string of ploidy 1-3 over alleles {., 0, 1, 2(, 3)} and separators {/, |} (quick 283 strings, "
         "thorough all 555) placed in the selected or the unselected column of the first, middle or last of three records, "
-        "with and without projection/strict; each scenario runs through the VCF text path and the BCF binary path (raw or "
+        "with and without projection/strict, and with BOTH columns selected where the other selected sample is missing or multiallelic in the column before or after the probed call; each scenario runs through the VCF text path and the BCF binary path (raw or "
         "BGZF, own encoder). Genotypes.ClassifyLaws (totality, phasing-independence, precedence) is checked by TLC on the "
         "whole alphabet. A lone '.' is the VCF missing value and is read as Missing (see DESIGN.md).",
-        ["MCCreate_gt_quick.cfg"], ["MCCreate_gt_t1.cfg"],
+        ["MCCreate_gt_quick.cfg", "MCCreate_gt2_quick.cfg"], ["MCCreate_gt_t1.cfg", "MCCreate_gt2_t1.cfg"],
         [SAB_SUM], env={"CREATE_ALSO": "bcf"})
